@@ -649,6 +649,49 @@ def nd_level(ctx, d, cls, cm, cp, g_prev, coarse, standalone, pms, level, corr):
             total, pm = rec.calls[0], rec.calls[1:]
             p = [x / total for x in pm]
             probs[cs] = p
+            # the loop must return for every uniform of [0, 1): the largest one is sent to the last corner of positive mass
+            cp._uniform = ScriptedUniform([1.0 - 2.0 ** -30])
+            try:
+                v = [float(x) for x in cstate(inc)]
+            except ValueError as e:
+                ctx.fail("oracle", "c03.nd.corner_probs_sum_one", dl, {"increment": inc, "u": 1.0 - 2.0 ** -30, "exception": repr(e)[:200],
+                                                                      "corner_masses": pm, "total_mass": total}, cls=cls)
+                return False
+            if not corr:
+                # search mode: the probabilities are read off the behaviour of __coupling_state as a function of u
+                # (bisection on the uniform), not off the masses it asked for
+                outcomes, edges, lo_u = [], [], 0.0
+                while lo_u < 1.0 - 2.0 ** -30:
+                    cp._uniform = ScriptedUniform([lo_u + 2.0 ** -40])
+                    here = [float(x) for x in cstate(inc)]
+                    a_, b_ = lo_u, 1.0 - 2.0 ** -30
+                    cp._uniform = ScriptedUniform([b_])
+                    if [float(x) for x in cstate(inc)] == here:
+                        outcomes.append(here); edges.append(1.0); break
+                    for _ in range(44):
+                        mid_u = 0.5 * (a_ + b_)
+                        cp._uniform = ScriptedUniform([mid_u])
+                        if [float(x) for x in cstate(inc)] == here:
+                            a_ = mid_u
+                        else:
+                            b_ = mid_u
+                    outcomes.append(here); edges.append(b_); lo_u = b_
+                bb = {}
+                prev = 0.0
+                for oc_, e_ in zip(outcomes, edges):
+                    bb[tuple(oc_)] = bb.get(tuple(oc_), 0.0) + (e_ - prev)
+                    prev = e_
+                p = []
+                for sg in itertools.product([-1, 1], repeat=len(S)):
+                    tgt = list(cs)
+                    for k, s_ in zip(S, sg):
+                        tgt[k] += s_
+                    p.append(bb.pop(tuple(axes[k][tgt[k]] for k in range(dim)), 0.0))
+                if bb:
+                    ctx.fail("oracle", "c03.nd.odd_adjacent", dl, {"increment": inc, "returned_non_adjacent": [list(k) for k in bb]}, cls=cls)
+                    return False
+                probs[cs] = p
+                ctx.branches["c03.nd.blackbox_probabilities"] += 1
             # S: the corner probabilities are probabilities and sum to 1
             if min(pm) < -ORACLE_REL * lam or not abs(math.fsum(pm) - total) <= ORACLE_REL * lam:
                 ctx.fail("oracle", "c03.nd.corner_probs_sum_one", dl, {"increment": inc, "corner_masses": pm, "total_mass": total,
@@ -749,7 +792,7 @@ def nd_level(ctx, d, cls, cm, cp, g_prev, coarse, standalone, pms, level, corr):
     dev = abs(flows[worst] - crate[worst])
     if not dependent:
         MAXDEV["2d"] = max(MAXDEV["2d"], dev / max(lam, 1e-300))
-    if worst != corigin and not dev <= tol:
+    if worst != corigin and not dev <= (tol if corr else 1e-9 * lam):
         ctx.fail("oracle", "c03.nd.telescoping", dl, {"coarse_state": list(worst), "coupled_coarse_rate": flows[worst],
                                                      "coarse_chain_rate": crate[worst], "relative_to_lambda": dev / max(lam, 1e-300),
                                                      "lambda_fine": lam}, cls=dict(cls, copula_dependent=dependent), mirrors_model=mirrors)
